@@ -694,7 +694,8 @@ impl GRLParser {
             // Check if these are the outermost parentheses
             let inner = &trimmed[1..trimmed.len() - 1];
             if self.is_balanced_parentheses(inner) {
-                inner
+                // the content may itself be parenthesised: ((A && B))
+                return self.parse_when_clause(inner);
             } else {
                 trimmed
             }
